@@ -300,7 +300,11 @@ func Check(p *Prop, tier string, workerExe string) int {
 		}
 		okCount := 0
 		var lastOut string
-		for i := 0; i < 2; i++ {
+		attempts := 2
+		if p.ReplayAttempts > attempts {
+			attempts = p.ReplayAttempts
+		}
+		for i := 0; i < attempts && okCount < 2; i++ {
 			code, out := runReplay(workerExe, rp)
 			lastOut = out
 			if code == 1 && matchSigInOutput(out, regexp.QuoteMeta(sig)) {
@@ -341,34 +345,34 @@ func Check(p *Prop, tier string, workerExe string) int {
 		samples = samples[:3]
 	}
 	cov := map[string]interface{}{
-		"evaluations":         agg.Evaluations + agg.SubRuns,
-		"distinct_nontrivial": len(fps),
-		"rule":                p.Rule,
-		"samples":             samples,
-		"simulated_runs":      agg.Evaluations,
-		"sub_executions":      agg.SubRuns,
-		"nontrivial_runs":     agg.NonTrivial,
-		"runs_per_hour":       int(float64(agg.Evaluations+agg.SubRuns) / wall * 3600),
-		"seeds":               []uint64{seed},
-		"workers":             workers,
-		"io_steps_total":      agg.IOSteps,
-		"restarts":            agg.Restarts,
-		"ops_total":           agg.Ops,
-		"op_acceptance_rate":  ratio(agg.OKOps, agg.Ops),
-		"simulated_time_s":    float64(agg.SimNs) / 1e9,
-		"faults_injected":     agg.Fired,
-		"distinct_states":     len(states),
-		"distinct_interleavings": len(inter),
-		"probes":              agg.Probes,
-		"steered_runs":        agg.Steered,
-		"unsteered_runs":      agg.Unsteered,
+		"evaluations":              agg.Evaluations + agg.SubRuns,
+		"distinct_nontrivial":      len(fps),
+		"rule":                     p.Rule,
+		"samples":                  samples,
+		"simulated_runs":           agg.Evaluations,
+		"sub_executions":           agg.SubRuns,
+		"nontrivial_runs":          agg.NonTrivial,
+		"runs_per_hour":            int(float64(agg.Evaluations+agg.SubRuns) / wall * 3600),
+		"seeds":                    []uint64{seed},
+		"workers":                  workers,
+		"io_steps_total":           agg.IOSteps,
+		"restarts":                 agg.Restarts,
+		"ops_total":                agg.Ops,
+		"op_acceptance_rate":       ratio(agg.OKOps, agg.Ops),
+		"simulated_time_s":         float64(agg.SimNs) / 1e9,
+		"faults_injected":          agg.Fired,
+		"distinct_states":          len(states),
+		"distinct_interleavings":   len(inter),
+		"probes":                   agg.Probes,
+		"steered_runs":             agg.Steered,
+		"unsteered_runs":           agg.Unsteered,
 		"known_findings_confirmed": knownConfirmed,
-		"known_finding_hits":  agg.KnownHits,
-		"known_finding_lines": knownLines,
-		"real_vs_stub":        p.RealVsStub,
-		"infra_notes":         agg.Infra,
-		"engine":              p.Engine,
-		"technique":           p.Technique,
+		"known_finding_hits":       agg.KnownHits,
+		"known_finding_lines":      knownLines,
+		"real_vs_stub":             p.RealVsStub,
+		"infra_notes":              agg.Infra,
+		"engine":                   p.Engine,
+		"technique":                p.Technique,
 	}
 	ev := map[string]interface{}{
 		"property_id": p.ID,
@@ -491,6 +495,17 @@ func crashClass(msg string) string {
 	if c == "" || c == "hang" {
 		return c
 	}
+	if c == "deadlock" {
+		// the dying worker named the lock site itself
+		if i := strings.Index(msg, "HANG: deadlock "); i >= 0 {
+			rest := msg[i+len("HANG: deadlock "):]
+			if j := strings.IndexAny(rest, "\n\r"); j >= 0 {
+				rest = rest[:j]
+			}
+			return "deadlock:" + strings.TrimSpace(rest)
+		}
+		return c
+	}
 	// the first library frame of the dying goroutine names the site
 	for _, l := range strings.Split(msg, "\n") {
 		l = strings.TrimSpace(l)
@@ -507,6 +522,8 @@ func crashClass(msg string) string {
 
 func crashKind(msg string) string {
 	switch {
+	case strings.Contains(msg, "HANG: deadlock "):
+		return "deadlock"
 	case strings.HasPrefix(msg, "HANG"):
 		return "hang"
 	case strings.Contains(msg, "out of memory") || strings.Contains(msg, "cannot allocate memory"):
